@@ -1,0 +1,16 @@
+//! Verification exports (compiled only with `--cfg rip_verif`): thin wrappers that make
+//! crate-private entry points reachable from the external property harness. No logic lives here.
+
+use std::path::Path;
+
+use rip_kernel::Event;
+
+/// Drive the private provider SSE pipe with a chunk partition; see `session::verif_run_sse_pipe`.
+pub async fn run_sse_pipe(
+    chunks: Vec<Vec<u8>>,
+    seq0: u64,
+    strict_validation: bool,
+    log_path: &Path,
+) -> (Vec<Event>, u64) {
+    crate::session::verif_run_sse_pipe(chunks, seq0, strict_validation, log_path).await
+}
